@@ -13,6 +13,30 @@ CHECKS = {
         text="Every cell of the finite matrix {documented API entry} x {group} x {float,double} x {owning, Map, Map<const>} x {access through the class, access through LieGroupBase&/TangentBase&} is a one-statement client function that the front end must accept; the quantifier of the property is this finite set of programs, so acceptance of all cells is a proof for the enumerated table. Table completeness is enforced against the public names in the headers; 'links' by R-ODR (no non-inline non-template external definition in a header).",
         note="Trusted: clang 14 (and g++ 12) front ends, system Eigen 3.4, external/tl. 'Forwards to the documented behaviour' is decided by C04's forwarding rule, not here. Quick: 8 group variants (R3, one 4-element Bundle); thorough: R1..R9, three Bundle layouts, and g++.",
     ),
+    "C14": dict(
+        level="proof", design="3/C14",
+        technique="static analysis: effect analysis (R-EFFECT) over the resolved, instantiated const-API call graph exported by a clang plugin",
+        text="A data race needs two threads touching the same location, one writing. The check proves, for every instantiated manif function of the all-API drivers (owning, Map and Map<const> operands, 8 group variants), that there is no mutable member, no const-dropping cast, no non-const static-storage variable, no store through a static, no recursive static initialisation, no use of the process-global PRNG outside the Random family, and that the build keeps thread-safe statics; with C++ const-correctness this leaves only reads of shared operands and guard-initialised immutable statics. Finite set of obligations, each discharged on the real AST.",
+        note="Trusted: clang 14 AST/instantiation; the compiler's implementation of [stmt.dcl]/4; Eigen fixed-size kernels and libm are re-entrant; callers own their outputs (the property's premise).",
+    ),
+    "C09": dict(
+        level="proof", design="3/C09",
+        technique="static analysis: non-interference (taint) + guard + definite-assignment dataflow over the instantiated AST, declaration checks, effect analysis",
+        text="Non-interference and purity are dataflow properties. For every instantiated function with optional outputs an abstract interpreter (state split per engagement vector) proves: no dereference of a disengaged optional; nothing computed under `if (J_a)` reaches the returned value or another output (the single table exemption, LieGroupBase::lminus, is verified by term equality of its two arms); no output is read before it is written; no raw data()/stride access on caller-supplied outputs; operations are const/static, take operands by const&/value and return owning types by value; in-place operators assign a materialised temporary; plus R-EFFECT (no hidden state).",
+        note="Trusted: clang 14 AST, Eigen kernels write only their destination, tl::optional. Modular: a callee receiving an optional is itself checked, so forwarding is allowed. Bit-identical repetition across calls follows from purity, not from executing anything.",
+    ),
+    "C05": dict(
+        level="other", design="3/C05",
+        technique="static analysis: definite-assignment / guard / block-bounds / noalias dataflow over every optional Jacobian output (clang plugin facts + abstract interpreter)",
+        text="Decides storage-level necessary conditions only: every requested Jacobian output is written in all its cells on every path, never through a disengaged optional, only inside its static extent, never aliasing a noalias destination, and forwarded outputs are completed by their callees (modular write summaries). It does not decide that the values written are the true derivative.",
+        note="NOT decided: numerical correctness of the closed forms, rounding behaviour. Trusted: clang AST/constant folding, Eigen block API semantics.",
+    ),
+    "C06": dict(
+        level="other", design="3/C06",
+        technique="static analysis: definite-assignment / bounds / aliasing dataflow on rjac, ljac, rjacinv, ljacinv, adj, smallAdj, fillQ, fillE",
+        text="Decides the structural clause C06.b: every returned Jacobian-typed matrix is completely written on every path, scratch blocks are read only after they were written, constant blocks lie inside the matrix, noalias operands are disjoint. Table (smallAdj = structure constants) and jet (Taylor arm meets closed form) clauses are added as they are built.",
+        note="NOT decided: rjacinv*rjac = I, Adj(exp t) = ljac*rjacinv, the series identity, accuracy above the switch-over (numerical).",
+    ),
 }
 
 NOT_APPLICABLE = {
